@@ -125,6 +125,8 @@ func sampleCells(cells []faultCase, sample, shard, shards int) []faultCase {
 				k += "/commit"
 			case strings.HasPrefix(c.F.Kind, "mta-") || strings.HasPrefix(c.F.Kind, "redeal:"):
 				k += "/" + c.F.Kind
+			case c.F.Kind == "late+1":
+				k = c.F.MsgType + "/late"
 			case c.F.Kind == "neg" || c.F.Kind == "point-other" || c.F.Kind == "sum-zero" || c.F.Kind == "mirror" || c.F.Kind == "wrong-secret" || strings.HasPrefix(c.F.Kind, "weak-params") || strings.HasPrefix(c.F.Kind, "bits-"):
 				k += "/" + c.F.Kind
 			}
